@@ -2,9 +2,10 @@ SPECIFICATION Spec
 CONSTANT MaxNodes = 5
 CONSTANT MaxLeaves = 3
 CONSTANT MaxList = 2
+CONSTANT MaxSingles = 3
 CONSTANT SymLeaves = 2
 CONSTANT Design = "reference"
-CONSTANT Domains = {"lists", "labels", "symbols", "structure"}
+CONSTANT Domains = {"singles", "lists", "labels", "symbols", "structure"}
 INVARIANT DomainWithinProperty
 INVARIANT RoundTripHolds
 CHECK_DEADLOCK FALSE
